@@ -557,3 +557,61 @@ def one_responder_at_a_time(ctx):
                   'request, the old one announcing ports that are no longer listened on', f)
     if n < 2:
         raise AnchorMissing('Server.shutdown / Server.restart closing self.interfaces not found')
+
+
+@rule('C19.R6', min_instances=5)
+def responder_loop_runs_and_budget_tests_have_the_right_side(ctx):
+    """the receive loop is entered (self.running = True before it, the loop test is the plain conjunction of running and
+    is_enabled) on a bound socket; after a datagram that could not be parsed no answer is reachable before the next receive;
+    in __init__ the truncate-or-disable logic runs on the side where the full message does NOT fit, and the responder is
+    disabled on the side where even the identity does not fit"""
+    m = ctx.m
+    run = _run(m)
+    loop = _loop(run)
+    ctx.analysed(run)
+    cfg = CFG(run.node, m, run.module)
+    t = loop.test
+    parts = t.values if isinstance(t, ast.BoolOp) and isinstance(t.op, ast.And) else [t]
+    names = {src(p) for p in parts}
+    ctx.check({'self.running', 'self.is_enabled'} <= names, f'{run.qualname}:loop runs while running and enabled', t, f'`{src(t)}`',
+              f'loop condition `{src(t)}`: the responder never enters its loop, or a disabled responder (identity over budget) answers with over-long datagrams', run)
+    starts = [i for tg, v, s in attr_stores(run.node) if tg.attr == 'running' and isinstance(v, ast.Constant) and v.value is True for i in cfg.node_of(s)]
+    ctx.check(bool(starts) and all(cfg.dominates(starts, i) for i in cfg.ids(loop.test)), f'{run.qualname}:running is set before the loop', run.node, 'self.running = True dominates the loop test',
+              'self.running is not set before the loop: the responder thread ends at once, no request is ever answered', run)
+    recv = [i for c in calls_in(loop) if call_attr(c) in RECV for i in cfg.node_of(c)]
+    sends = {i for c in calls_in(loop) if call_attr(c) == 'sendto' for i in cfg.node_of(c)}
+    for h in [x for x in walk_local(loop) if isinstance(x, ast.ExceptHandler) and x.type is not None and 'ValueError' in src(x.type)]:
+        first = [i for st in h.body[:1] for i in cfg.ids(st)] or [i for st in h.body[:1] for i in cfg.node_of(st)]
+        reach = cfg.reach(first, avoid=set(recv)) | set(first)
+        ctx.check(not (reach & sends), f'{run.qualname}:unparsable datagram is skipped', h, 'no sendto between the handler and the next receive',
+                  'after a datagram that is not JSON the loop goes on with the request of the PREVIOUS datagram (or an unbound name): it is answered again / '
+                  'the thread ends with UnboundLocalError', run)
+    init = m.method(UDP, '__init__', inherited=False)
+    ctx.analysed(init)
+    cfgi = CFG(init.node, m, init.module)
+    binds = [c for c in calls_in(init.node) if call_attr(c) == 'bind']
+    ctx.check(bool(binds), f'{init.qualname}:socket is bound', init.node, 'self.sock.bind(...)', 'the socket is never bound to the discovery port: no request arrives', init)
+    dis = {i for tg, v, s in attr_stores(init.node) if tg.attr == 'is_enabled' and isinstance(v, ast.Constant) and v.value is False for i in cfgi.node_of(s)}
+    trunc = {i for n in body_walk(init.node) if isinstance(n, ast.Assign) and any(isinstance(tg, ast.Attribute) and tg.attr == 'description' for tg in n.targets)
+             and any(isinstance(x, ast.Slice) for x in ast.walk(n.value)) for i in cfgi.node_of(n)}
+    for tt in cfgi.nodes:
+        if tt.kind != 'test':
+            continue
+        for l, op, r in compare_ops(tt.ast):
+            if op in ('<', '<=') and {l, r} == {'available', '0'}:
+                nofit_true = (l == 'available')
+                strict_ok = (op == '<') if nofit_true else (op == '<=')
+                side = cfgi.reach([tt.id], labels={'T' if nofit_true else 'F'}, avoid=[tt.id])
+                ctx.check(strict_ok and (dis | trunc) <= side and bool(trunc), f'{init.qualname}:over-long message is handled on the side where it does not fit', tt.ast,
+                          'truncate / disable when available < 0', f'`{src(tt.ast)}`: truncation and disabling run when the message fits, an over-long one is sent as it is', init)
+            if op in ('<', '<=') and r == '0' and l == 'available' and False:
+                pass
+            if op in ('<', '<=') and 'MAX_MESSAGE_LEN' in (l, r) and 'len(' in l + r:
+                too_long_true = (l == 'MAX_MESSAGE_LEN')
+                neg = isinstance(tt.ast, ast.UnaryOp)
+                side = cfgi.reach([tt.id], labels={'T' if too_long_true != neg else 'F'}, avoid=[tt.id]) if not neg else None
+                if side is not None:
+                    other = cfgi.reach([tt.id], labels={'F' if too_long_true else 'T'}, avoid=[tt.id])
+                    ctx.check(bool(dis) and dis <= side and not (dis & other - side) and bool(trunc & other), f'{init.qualname}:disabled when the identity does not fit, truncated otherwise', tt.ast,
+                              'is_enabled = False on the too-long side, truncation on the other',
+                              f'`{src(tt.ast)}`: the responder is switched off when the identity fits and sends an untruncated over-long description when it does not', init)
